@@ -172,4 +172,18 @@ PROPS = {
         'explanation': 'theorems gossip_rule (from the Allowed relation), radius_is_last_report (all report sequences), unknown_never_target; relation check on '
                        'real gossip calls; step equality of the radius cache',
     },
+    'C16': {
+        'lean_targets': ['Shisui.Props.C16'],
+        'min_obligations': 3,
+        'runs': [{'name': 'permits', 'harness': ['permits'], 'driver': ['C16'], 'timeout': 1200}],
+        'rule': 'slot controller: random acquire-inbound / acquire-outbound / release / repeated-release sequences at limits 0..5 (step equality of every '
+                'grant and of the slots obtainable afterwards); real processOffer with a real outbound permit against scripted replies (empty, wrong code, '
+                'undecodable, wrong count all declined, wrong count with an accepting verdict, short count accepting, all declined, truncated) for both '
+                'ACCEPT encodings; offer() to a silent peer (RPC timeout); gossip with a free and with a full offer queue; 8 real gossip-initiated '
+                'transfers through 3 slots between two real instances; after each, the number of slots obtainable once activity has ceased must equal '
+                'the limit; non-trivial = sequences of more than 3 operations / every scripted outcome; distinct = distinct lines',
+        'trusted': ['golang.org/x/sync/semaphore as a counter; utp-go'],
+        'assumptions': ['RPC-initiated offers use NoPermit by design and are outside the bound', 'dial/read failures after an accepted offer wait for 15 s timeouts and are exercised in the thorough tier only'],
+        'explanation': 'theorems held_le_limit, conservation, quiescent_full over all interleavings; step equality for the controller; "slot returned" monitors per outcome on the real code',
+    },
 }
